@@ -267,6 +267,20 @@ def gen_ordered(rng, n, group=None):
     return g, out
 
 
+def gen_poset(rng, n):
+    """previous value + a chain of n observed values from a partial order (sets under inclusion):
+    the observed values are pairwise comparable, so their extreme is well defined, but the previous
+    value may be incomparable to them (a failing bound that is neither above nor below)."""
+    kind = rng.choice(["set", "frozenset"])
+    universe = list(range(rng.randint(3, 6)))
+    rng.shuffle(universe)
+    cuts = sorted(rng.randint(0, len(universe)) for _ in range(n))
+    chain = [(kind, tuple(("int", i) for i in sorted(universe[:c]))) for c in cuts]
+    rng.shuffle(chain)
+    prev = (kind, tuple(("int", i) for i in sorted(rng.sample(range(7), rng.randint(0, 4)))))
+    return "poset-" + kind, prev, chain
+
+
 # ---------------------------------------------------------------------------------------
 # hostile-layout renderer (old snapshot text)
 
